@@ -115,6 +115,9 @@ pub enum Op {
     ReplicaUpdate { m: u8, picks: Vec<u16>, verified: bool, bad_proof: bool },
     /// macro: onboard two batches, prove the next `posts` deadlines with sectors, then a replica update across them
     SnapCycle { m: u8, n: u8, posts: u8, picks: Vec<u16>, verified: bool, #[serde(default)] withdraw: bool },
+    /// macro: a PoSt with an invalid proof (accepted optimistically), the deadline closes, a replica update (or an extension)
+    /// changes the sectors of that deadline inside the dispute window, then the PoSt is disputed
+    BadPostChangeDispute { m: u8, into: u8, picks: Vec<u16>, verified: bool, extend_instead: bool, rel: i16 },
 }
 
 #[derive(Clone, Debug, Serialize, Deserialize)]
@@ -176,6 +179,8 @@ pub struct Sys<'a> {
     /// planned content per (miner, sector): (piece cid, size, allocation id)
     pub plans: BTreeMap<(ActorID, u64), Vec<(cid::Cid, u64, Option<u64>)>>,
     pub piece_counter: u64,
+    /// replica updates prefer sectors of this deadline (set by macros)
+    pub prefer_deadline: Option<u64>,
 }
 
 pub fn proof_of(kind: u8) -> (RegisteredSealProof, RegisteredPoStProof) {
@@ -204,7 +209,7 @@ impl<'a> Sys<'a> {
         }
         let stranger = w.account(600, &TokenAmount::from_whole(1000));
         let reporter = w.account(601, &TokenAmount::from_whole(1000));
-        let mut s = Sys { w, miners: vec![], stranger, reporter, stats, pending_fault: None, ticks: 0, checks: super::checks::Checks::default(), cushion_miner: None, pending_tick_fault: None, abandon: false, recent_posts: vec![], verifier: 0, vclient: 0, allocs: vec![], plans: BTreeMap::new(), piece_counter: 0 };
+        let mut s = Sys { w, miners: vec![], stranger, reporter, stats, pending_fault: None, ticks: 0, checks: super::checks::Checks::default(), cushion_miner: None, pending_tick_fault: None, abandon: false, recent_posts: vec![], verifier: 0, vclient: 0, allocs: vec![], plans: BTreeMap::new(), piece_counter: 0, prefer_deadline: None };
         s.setup_verified()?;
         let n = (case.n_miners as usize).clamp(1, 4);
         for i in 0..n {
@@ -522,6 +527,27 @@ impl<'a> Sys<'a> {
                     self.stats.label("bulk_onboarded");
                 }
             }
+            Op::BadPostChangeDispute { m, into, picks, verified, extend_instead, rel } => {
+                let before = self.recent_posts.len();
+                self.step(i, &Op::PostNext { m: *m, into: *into, skip: vec![], bad_proof: true, partial: false })?;
+                if self.recent_posts.len() == before || !self.recent_posts[self.recent_posts.len() - 1].3 {
+                    return Ok(());
+                }
+                let (mi_, dl, close, _) = self.recent_posts[self.recent_posts.len() - 1];
+                self.advance_to(close + 1 + (*rel as i64).max(0))?;
+                if *extend_instead {
+                    self.step(i, &Op::ExtendMany { m: mi_ as u8, pick: 0, per_partition: 2, add_days: 30, common: false })?;
+                } else {
+                    self.prefer_deadline = Some(dl);
+                    let r = self.step(i, &Op::ReplicaUpdate { m: mi_ as u8, picks: picks.clone(), verified: *verified, bad_proof: false });
+                    self.prefer_deadline = None;
+                    r?;
+                }
+                let bad = self.recent_posts.iter().filter(|p| p.3).count();
+                let pk = (((bad - 1) as u32 * 65536 + 65535) / bad as u32).min(65535) as u16;
+                let pk = if pk % 4 == 0 { pk.saturating_sub(1) } else { pk };
+                self.step(i, &Op::DisputeRecent { pick: pk, rel: 1 + (*rel).max(0), index: 0 })?;
+            }
             Op::SnapCycle { m, n: cnt, posts, picks, verified, withdraw } => {
                 self.step(i, &Op::Onboard { m: *m, n: *cnt, life_days: 120 })?;
                 self.step(i, &Op::Onboard { m: *m, n: *cnt, life_days: 150 })?;
@@ -539,6 +565,7 @@ impl<'a> Sys<'a> {
                 let (id, worker, seal) = (self.miners[mi_].id, self.miners[mi_].worker, self.miners[mi_].seal);
                 let mv = read_miner(&self.w.v, id);
                 // candidates: healthy, proven, empty sectors; prefer one per deadline so that the batch spans deadlines
+                #[allow(unused_mut)]
                 let mut by_deadline: Vec<Vec<(u64, u64, u64)>> = vec![];
                 for (di, d) in mv.deadlines.iter().enumerate() {
                     let mut here = vec![];
@@ -556,6 +583,12 @@ impl<'a> Sys<'a> {
                 }
                 if by_deadline.is_empty() {
                     return Ok(());
+                }
+                if let Some(pd) = self.prefer_deadline {
+                    let only: Vec<Vec<(u64, u64, u64)>> = by_deadline.iter().filter(|v| v[0].0 == pd).cloned().collect();
+                    if !only.is_empty() {
+                        by_deadline = only;
+                    }
                 }
                 let mut chosen: Vec<(u64, u64, u64)> = vec![];
                 for (k, pk) in picks.iter().take(4).enumerate() {
@@ -845,6 +878,17 @@ impl<'a> Sys<'a> {
                     return Ok(());
                 }
                 let loc = Self::locate(&mv, &chosen);
+                // now and then the first declaration is repeated in the same message
+                let repeat = sectors.len() == 3 && sectors[2] % 3 == 0;
+                let loc: Vec<((u64, u64), Vec<u64>)> = {
+                    let mut v: Vec<((u64, u64), Vec<u64>)> = loc.into_iter().collect();
+                    if repeat && !v.is_empty() {
+                        let first = v[0].clone();
+                        v.push(first);
+                        self.stats.label("declaration_repeated_in_message");
+                    }
+                    v
+                };
                 let mk = |v: &Vec<u64>| {
                     let mut b = BitField::new();
                     for s in v {
@@ -1121,8 +1165,9 @@ impl<'a> Sys<'a> {
                 let mut new_expiration = new_expiration;
                 let mut second_decl: Option<i64> = None;
                 // at the end of life the interesting declarations are the ones that drop claims
-                let mode_eff = if *target % 3 == 2 && *mode % 7 == 0 { [2u8, 2, 1, 0][(*pk as usize / 7) % 4] } else { *mode };
-                let (maintain, drop): (Vec<u64>, Vec<u64>) = match mode_eff % 7 {
+                let mode_eff = if *target % 3 == 2 && *mode % 8 == 0 { [2u8, 2, 1, 0][(*pk as usize / 7) % 4] } else { *mode };
+                let mut twice_in_one_declaration = false;
+                let (maintain, drop): (Vec<u64>, Vec<u64>) = match mode_eff % 8 {
                     0 => (ids.clone(), vec![]),
                     1 => (vec![], ids.clone()),
                     2 => (ids.iter().skip(1).copied().collect(), ids.iter().take(1).copied().collect()),
@@ -1148,6 +1193,21 @@ impl<'a> Sys<'a> {
                         }
                         (v, vec![])
                     }
+                    7 => {
+                        // the sector appears twice in the claim list of ONE declaration, each time naming only the claim whose term
+                        // ends last (of two claims of equal size); the new expiration lies beyond the other claim's term
+                        let mut v = ids.clone();
+                        if by_end.len() == 2 {
+                            let (early, late) = (by_end[0], by_end[1]);
+                            if early.2 == late.2 && late.1 > early.1 {
+                                v = vec![late.0];
+                                twice_in_one_declaration = true;
+                                new_expiration = std::cmp::min(late.1, early.1 + 1 + (*add_days as i64 % 200) * PERIOD);
+                                self.stats.label("extension_names_a_sector_twice_in_one_declaration");
+                            }
+                        }
+                        (v, vec![])
+                    }
                     _ => {
                         // the sector is named again, without claims, in a second declaration with a later expiration
                         second_decl = Some(min_end + 1 + (*add_days as i64 % 100) * PERIOD);
@@ -1161,6 +1221,8 @@ impl<'a> Sys<'a> {
                 let swc = if maintain.is_empty() && drop.is_empty() {
                     b.set(s);
                     vec![]
+                } else if twice_in_one_declaration {
+                    vec![mi::SectorClaim { sector_number: s, maintain_claims: maintain.clone(), drop_claims: vec![] }, mi::SectorClaim { sector_number: s, maintain_claims: maintain.clone(), drop_claims: vec![] }]
                 } else {
                     vec![mi::SectorClaim { sector_number: s, maintain_claims: maintain.clone(), drop_claims: drop.clone() }]
                 };
@@ -1377,13 +1439,14 @@ pub fn op_strategy_w(bulk: u32, long: u32, dispute: u32, verified: u32, benef: u
         bulk * 5 => (0u8..4, any::<u16>(), 0u8..3, 0u16..300, any::<bool>()).prop_map(|(m, pick, per_partition, add_days, common)| Op::ExtendMany { m, pick, per_partition, add_days, common }),
         bulk * 10 => (0u8..4, 0u8..40, prop_oneof![1 => Just(0u16), 2 => 0u16..400]).prop_map(|(m, n, life_days)| Op::Bulk { m, n, life_days }),
         benef => (0u8..4, prop_oneof![1 => 1u32..20_000, 2 => 1_000_000u32..4_000_000], 3u16..600, -2i8..3, prop_oneof![Just(Who::Owner), Just(Who::Beneficiary)], 1u16..1000).prop_map(|(m, quota_milli, exp_rel, rel, by, pm)| Op::BeneficiaryCycle { m, quota_milli, exp_rel, rel, by, pm }),
+        dispute => (0u8..4, 0u8..5, proptest::collection::vec(any::<u16>(), 1..4), prop_oneof![3 => Just(true), 1 => Just(false)], prop_oneof![5 => Just(false), 1 => Just(true)], 0i16..200).prop_map(|(m, into, picks, verified, extend_instead, rel)| Op::BadPostChangeDispute { m, into, picks, verified, extend_instead, rel }),
         dispute * 2 => (0u8..4, 0u8..5, -1i16..40).prop_map(|(m, into, rel)| Op::BadPostDispute { m, into, rel }),
         dispute => (any::<u16>(), prop_oneof![4 => -1i16..3, 2 => 0i16..1800, 1 => 1795i16..1805], prop_oneof![4 => Just(0u8), 1 => Just(1u8)]).prop_map(|(pick, rel, index)| Op::DisputeRecent { pick, rel, index }),
         30 => (any::<u16>(), any::<bool>(), faultable_op()).prop_map(|(ordinal, syscall, op)| Op::WithFault { ordinal, syscall, op: Box::new(op) }),
         verified * 4 => (0u8..4, proptest::collection::vec(0u8..4, 1..4), 0u16..300, prop_oneof![1 => 31u16..200, 2 => 0u16..1500], prop_oneof![4 => 0u8..5, 3 => Just(5u8), 1 => 6u8..8]).prop_map(|(m, sizes, life_days, term_extra_days, exp_mode)| Op::OnboardV { m, sizes, life_days, term_extra_days, exp_mode }),
         verified => (0u8..4, proptest::collection::vec(0u8..4, 1..4), 0u16..400, 0u16..1500, 0u8..70).prop_map(|(m, sizes, term_min_extra_days, term_extra_days, exp_days)| Op::Allocate { m, sizes, term_min_extra_days, term_extra_days, exp_days }),
         verified => (0u8..4, proptest::collection::vec(any::<u16>(), 1..4), 0u16..300, any::<bool>(), 0u8..8).prop_map(|(m, picks, life_days, filler, exp_mode)| Op::PreCommitV { m, picks, life_days, filler, exp_mode }),
-        verified * 4 => (0u8..4, any::<u16>(), 0u16..300, prop_oneof![3 => Just(0u8), 2 => 1u8..7], prop_oneof![8 => Just(0u8), 6 => Just(1u8), eol => Just(2u8)], -2i8..3).prop_map(|(m, pick, add_days, mode, target, rel)| Op::ExtendV { m, pick, add_days, mode, target, rel }),
+        verified * 4 => (0u8..4, any::<u16>(), 0u16..300, prop_oneof![3 => Just(0u8), 2 => 1u8..8], prop_oneof![8 => Just(0u8), 6 => Just(1u8), eol => Just(2u8)], -2i8..3).prop_map(|(m, pick, add_days, mode, target, rel)| Op::ExtendV { m, pick, add_days, mode, target, rel }),
         verified => (any::<u16>(), 0u16..800, prop_oneof![5 => Just(true), 1 => Just(false)]).prop_map(|(pick, add_days, by_client)| Op::ExtendClaim { pick, add_days, by_client }),
         verified => (0u8..4, any::<bool>()).prop_map(|(m, claims)| Op::RemoveExpired { m, claims }),
         (if long >= 6 { long / 2 } else { 1 }) => (0u8..4, prop_oneof![4 => Just(true), 1 => Just(false)], -1i8..3).prop_map(move |(m, post, rel)| if long >= 6 { Op::ToExpiry { m, post, rel } } else { Op::Advance(Adv::Epochs(rel.unsigned_abs() as u16)) }),
